@@ -6,7 +6,7 @@ PID=$1; N=$2; WT=/tmp/mut-$PID-$N; D=/verif/seeded/$PID-$N
 cd $WT
 git apply -R --check MUTATION/patch.diff 2>/dev/null || { git checkout -q -- unified_planning; git apply MUTATION/patch.diff || { echo "patch does not apply"; exit 2; }; }
 PYTHONPATH=$WT /venv/bin/python MUTATION/demo.py > /dev/null 2>&1; WITH=$?
-SUITE=$(/verif/harness/run_suite.sh $WT 2>&1 | grep -E "^baseline" | head -1)
+if [ -n "$SKIP_SUITE" ]; then SUITE="deferred (harness/recheck_suite.sh)"; else SUITE=$(/verif/harness/run_suite.sh $WT 2>&1 | grep -E "^baseline" | head -1); fi
 git apply -R MUTATION/patch.diff
 PYTHONPATH=$WT /venv/bin/python MUTATION/demo.py > /dev/null 2>&1; WITHOUT=$?
 echo "$PID-$N: demo with change exit=$WITH, without exit=$WITHOUT; suite with change: $SUITE"
